@@ -249,3 +249,129 @@ Proof.
     unfold parse_port. rewrite Hn, Hd. cbn [fst snd]. rewrite (Hplace n H1' H2'). rewrite H1', H2'.
     cbn [orb] in Harr. apply N.eqb_eq in Harr. now subst w.
 Qed.
+
+(* ---------------------------------------------------------------------------------------- *)
+(* the interface: all ports of a cell, in order, through the reader's interface loop *)
+Lemma str_eqb_sym a b : str_eqb a b = str_eqb b a.
+Proof.
+  destruct (str_eqb a b) eqn:E1, (str_eqb b a) eqn:E2; auto.
+  - apply str_eqb_spec in E1. subst. now rewrite str_eqb_refl in E2.
+  - apply str_eqb_spec in E2. subst. now rewrite str_eqb_refl in E1.
+Qed.
+
+Lemma ident_eqb_sym a b : ident_eqb a b = ident_eqb b a.
+Proof. unfold ident_eqb. apply str_eqb_sym. Qed.
+
+Lemma uniq_ci_mid l1 : forall a l2, uniq_ci (l1 ++ a :: l2) = true -> existsb (ident_eqb a) l1 = false.
+Proof.
+  induction l1 as [|b l1 IH]; intros a l2 H; [reflexivity|].
+  cbn [app uniq_ci] in H. apply andb_true_iff in H as [Hb Hr].
+  cbn [existsb]. rewrite (IH _ _ Hr), orb_false_r.
+  apply negb_true_iff in Hb. rewrite existsb_app in Hb. apply orb_false_iff in Hb as [_ Hb].
+  cbn [existsb] in Hb. apply orb_false_iff in Hb as [Hb _]. now rewrite ident_eqb_sym.
+Qed.
+
+Lemma uniq_x_mid l1 : forall a l2, uniq_x (l1 ++ a :: l2) = true -> existsb (str_eqb a) l1 = false.
+Proof.
+  induction l1 as [|b l1 IH]; intros a l2 H; [reflexivity|].
+  cbn [app uniq_x] in H. apply andb_true_iff in H as [Hb Hr].
+  cbn [existsb]. rewrite (IH _ _ Hr), orb_false_r.
+  apply negb_true_iff in Hb. rewrite existsb_app in Hb. apply orb_false_iff in Hb as [_ Hb].
+  cbn [existsb] in Hb. apply orb_false_iff in Hb as [Hb _]. now rewrite str_eqb_sym.
+Qed.
+
+Lemma ports_loop ps : forall acc xs, emap port_sexp ps = EmOk xs -> forallb port_w ps = true ->
+  uniq_ci (map po_ident (acc ++ ps)) = true -> uniq_x (map po_name (acc ++ ps)) = true ->
+  loop interface_step false (acc, false) xs = Ok (acc ++ ps, false).
+Proof.
+  induction ps as [|p ps IH]; intros acc xs Hx Hw Hi Hn.
+  - inversion Hx. now rewrite app_nil_r.
+  - cbn [emap] in Hx. destruct (port_sexp p) as [x| |] eqn:Ep; try discriminate.
+    destruct (emap port_sexp ps) as [xs'| |] eqn:Eps; try discriminate. inversion Hx. subst xs.
+    cbn [forallb] in Hw. apply andb_true_iff in Hw as [Hwp Hws].
+    rewrite map_app in Hi, Hn. cbn [map] in Hi, Hn.
+    destruct (port_roundtrip acc p x Hwp Ep (uniq_ci_mid _ _ _ Hi) (uniq_x_mid _ _ _ Hn)) as (args & -> & Hp).
+    unfold KW. cbn [loop]. unfold interface_step at 1.
+    replace (kweq (lower (K "port")) "port") with true by (vm_compute; reflexivity).
+    cbn [fst snd]. rewrite Hp.
+    replace (acc ++ p :: ps) with ((acc ++ [p]) ++ ps) by (now rewrite <- app_assoc).
+    apply IH; auto.
+    + rewrite <- app_assoc. cbn [app]. now rewrite map_app.
+    + rewrite <- app_assoc. cbn [app]. now rewrite map_app.
+Qed.
+
+(* (interface port..) of a cell read by parse_interface: the ports come back, in order *)
+Theorem interface_roundtrip ps xs : emap port_sexp ps = EmOk xs -> forallb port_w ps = true ->
+  uniq_ci (map po_ident ps) = true -> uniq_x (map po_name ps) = true ->
+  parse_interface (SList (KW "interface" :: xs)) = Ok ps.
+Proof.
+  intros Hx Hw Hi Hn. unfold parse_interface.
+  replace (is_kw "interface" (KW "interface")) with true by (vm_compute; reflexivity).
+  rewrite (ports_loop ps [] xs Hx Hw Hi Hn). reflexivity.
+Qed.
+
+(* ---------------------------------------------------------------------------------------- *)
+(* instances: (instance name (viewref netlist (cellref c (libraryref l))) property..) *)
+Lemma props_loop ps : forall acc xs, emap prop_sexp ps = EmOk xs -> forallb prop_w ps = true ->
+  loop inst_step false acc xs = Ok (acc ++ ps).
+Proof.
+  induction ps as [|p ps IH]; intros acc xs Hx Hw.
+  - inversion Hx. now rewrite app_nil_r.
+  - cbn [emap] in Hx. destruct (prop_sexp p) as [x| |] eqn:Ep; try discriminate.
+    destruct (emap prop_sexp ps) as [xs'| |] eqn:Eps; try discriminate. inversion Hx. subst xs.
+    cbn [forallb] in Hw. apply andb_true_iff in Hw as [Hwp Hws].
+    assert (Hid : propid_w (pr_ident p) = true).
+    { unfold prop_w in Hwp. apply andb_true_iff in Hwp as [Hwp _]. now apply andb_true_iff in Hwp as [Hwp _]. }
+    destruct (prop_roundtrip p x Hid Hwp Ep) as (args & -> & Hp).
+    unfold KW. cbn [loop]. unfold inst_step at 1.
+    replace (kweq (lower (K "property")) "property") with true by (vm_compute; reflexivity).
+    rewrite Hp. replace (acc ++ p :: ps) with ((acc ++ [p]) ++ ps) by (now rewrite <- app_assoc).
+    now apply IH.
+Qed.
+
+Lemma ident_w_nowild i : ident_w i = true -> has_wild i = false.
+Proof.
+  unfold ident_w. intros H. apply andb_true_iff in H as [H _]. apply andb_true_iff in H as [_ H].
+  now apply negb_true_iff in H.
+Qed.
+
+Lemma nameref_read i : ident_w i = true -> parse_nameref (Atom i) = Ok i.
+Proof.
+  intros H. destruct (ident_w_parts _ H) as (_ & Htok & _). unfold parse_nameref.
+  now rewrite Htok, (ident_w_nowild _ H).
+Qed.
+
+Theorem inst_roundtrip cx insts lib cell i x l c cs C :
+  inst_sexp [] lib cell i = EmOk x -> in_ref i = Some (l, c) ->
+  elem_w (in_ident i) (in_name i) = true -> forallb prop_w (in_props i) = true ->
+  ident_w l = true -> ident_w c = true ->
+  resolve_lib cx (Some l) = Ok (l, cs) -> find_cell c cs = Some C -> ce_ident C = c ->
+  ce_view C = Some (K "netlist") ->
+  ident_taken (in_ident i) (map (fun ip : einst => in_ident (fst ip)) insts) = false ->
+  name_taken (in_name i) (map (fun ip : einst => in_name (fst ip)) insts) = false ->
+  exists args, x = SList (KW "instance" :: args) /\ parse_instance cx insts args = Ok (i, ce_ports C).
+Proof.
+  intros Hx Href Hel Hps Hl Hc Hres Hfind Hcid Hview Hti Htn.
+  destruct i as [name ident ref props]. cbn [in_name in_ident in_ref in_props] in *. subst ref.
+  unfold elem_w in Hel. apply andb_true_iff in Hel as [Hi Ht].
+  unfold inst_sexp in Hx. cbn [in_name in_ident in_ref in_props] in Hx.
+  destruct (name_sexp ident name) as [nx| |] eqn:En; try discriminate.
+  unfold atom_of in Hx.
+  destruct (ident_w_parts _ Hl) as (_ & _ & Hatl). destruct (ident_w_parts _ Hc) as (_ & _ & Hatc).
+  rewrite Hatc, Hatl in Hx.
+  unfold props_sexp, float_props in Hx. cbn [find option_map] in Hx.
+  destruct (emap prop_sexp props) as [pxs| |] eqn:Eps; try discriminate.
+  inversion Hx. subst x. cbn [app]. eexists. split; [reflexivity|].
+  destruct (elemname_roundtrip _ _ _ Hi Ht En) as (n & Hn & Hn1 & Hn2).
+  unfold parse_instance. rewrite Hn. unfold KW.
+  replace (kweq (lower (K "viewref")) "viewref") with true by (vm_compute; reflexivity).
+  unfold parse_viewref.
+  replace (parse_nameref (Atom (K "netlist"))) with (@Ok str (K "netlist")) by (vm_compute; reflexivity).
+  replace (is_kw "cellref" (Atom (K "cellref"))) with true by (vm_compute; reflexivity).
+  cbn [negb]. rewrite (nameref_read _ Hc).
+  replace (is_kw "libraryref" (Atom (K "libraryref"))) with true by (vm_compute; reflexivity).
+  rewrite (nameref_read _ Hl). rewrite Hres. cbn [fst snd]. rewrite Hfind, Hview. unfold view_ok.
+  replace (ident_eqb (K "netlist") (K "netlist")) with true by (vm_compute; reflexivity).
+  cbn [fst snd]. rewrite (props_loop props [] pxs Eps Hps). cbn [app].
+  unfold place. rewrite Hn1, Hn2, Hti, Htn. now subst c.
+Qed.
